@@ -458,12 +458,12 @@ harnesses! {
     // @bounds embedded; (send|drop sender);(poll|into_value|is_ready,poll); depth 1
     fn c07_embedded_complete_then_receive [unwind 4] { with_embedded(1, embedded::shape_complete_then_receive) }
 
-    // @verif id=C07 tier=thorough timeout=7200 mem=24 expect=pass
-    // @bounds pooled (LocalEventPool) storage; poll(w1);(send|drop sender); depth 1; pool.len()==0 at the end
+    // @verif id=C07 tier=reference timeout=7200 mem=24 expect=pass
+    // @bounds NOT REGISTERED (kept for reference): pooled (LocalEventPool) storage; poll(w1);(send|drop sender); depth 1; pool.len()==0 at the end - no verdict within 100 min / 24 GB
     fn c07_pooled_poll_complete [unwind 4] { with_pooled(1, pooled::shape_poll_complete) }
 
-    // @verif id=C07 tier=thorough timeout=7200 mem=24 expect=pass
-    // @bounds pooled; (send|drop sender);(poll|into_value|is_ready,poll); depth 1
+    // @verif id=C07 tier=reference timeout=7200 mem=24 expect=pass
+    // @bounds NOT REGISTERED (kept for reference): pooled; (send|drop sender);(poll|into_value|is_ready,poll); depth 1 - CBMC ran out of memory after 66 min at 24 GB
     fn c07_pooled_complete_then_receive [unwind 4] { with_pooled(1, pooled::shape_complete_then_receive) }
 
     // @verif id=C07 tier=quick timeout=600 mem=10 expect=fail
